@@ -629,9 +629,12 @@ macro_rules! const_instance {
 
 fn main() {
     let ctx = Ctx::from_args(P, "model_checking");
+    // one index = one complete stateright exploration (a whole state graph), not one operation: the 60 s per-index
+    // non-termination watchdog of the enumeration families does not apply (a false C11 alarm in the thorough tier otherwise)
+    ctx.watchdog_ms.store(3_600_000, std::sync::atomic::Ordering::Relaxed);
     let th = ctx.thorough();
     ctx.set_rule("E2 explicit-state search (stateright BFS) over a two-register machine of REAL Montgomery-form values with 42 operation forms + New(seed): \
-        (i) small odd moduli m <= 31 (quick) / <= 255 (thorough) plus 251, 4093(thorough): the COMPLETE reachable state graph (unbounded history length) in MontyForm<1,2,3,4>, BoxedMontyForm 1,2,3,5 limbs; \
+        (i) small odd moduli m <= 31 (quick) / <= 255 (thorough) plus 251 (quick), 1021 (thorough; 4093 alone took 19 min single-threaded and was dropped): the COMPLETE reachable state graph (unbounded history length) in MontyForm<1,2,3,4>, BoxedMontyForm 1,2,3,5 limbs; \
         (ii) adversarial large moduli (2^BITS-1, 2^(BITS-1)+1, ~2^BITS/3, ~2^BITS/4, 2^BITS-3, 2^BITS-(2^64-1), zero-high-limb moduli) depth-bounded to 3 (quick) / 4-5 (thorough) for MontyForm<1,2,3,4,6,8,16,32>, BoxedMontyForm 1..5,8,16,33 limbs; \
         (iii) ten compile-time moduli through ConstMontyForm incl. conversion Const->Dyn->Boxed. Invariant in every state: representative < m and retrieve() == Z/mZ reference. \
         Parameter sets: new == new_vartime == from_const_params == definitions (R, R^2, R^3 mod m, -m^-1 mod 2^64, min(lz,63)).");
@@ -639,7 +642,7 @@ fn main() {
     ctx.assume("large moduli: histories longer than the stated depth bound and seeds outside the stated set are not explored");
     ctx.assume("parameter fields are observed through the public Debug rendering of MontyParams / BoxedMontyParams");
     let ctx = &ctx;
-    let small: Vec<u64> = if th { (1..=255u64).step_by(2).chain([4093]).collect() } else { (1..=31u64).step_by(2).chain([251]).collect() };
+    let small: Vec<u64> = if th { (1..=255u64).step_by(2).chain([1021]).collect() } else { (1..=31u64).step_by(2).chain([251]).collect() };
     let small_wide: Vec<u64> = if th { (1..=63u64).step_by(2).chain([251]).collect() } else { vec![1, 3, 5, 7, 9, 15, 17, 31] };
     let d = if th { 4 } else { 3 };
     fam_dyn::<1>(ctx, &small, d + th as u16);
